@@ -62,7 +62,11 @@ func buildSortTx(ins, outs string) *wire.MsgTx {
 				cat[i] = sc[i%len(sc)]
 			}
 			amt := uint64(atoi64(f[0])&0xffff) + 1
-			if t, err := wire.NewTokenData(cat, &amt, nil, nil); err == nil {
+			// an NFT commitment too (a function of the script, as the category): byte slices inside an output that a
+			// copy has to carry along with the right output
+			com := append([]byte{byte(len(sc))}, sc...)
+			capab := byte(len(sc) % 3)
+			if t, err := wire.NewTokenData(cat, &amt, &com, &capab); err == nil {
 				td = *t
 			}
 		}
@@ -319,7 +323,7 @@ func genC18(r *Rng, tier string, emit func(Case)) {
 	hashes := []string{"00", "01", "ff", "f01", "f02", "l01", "l02", "m01", "n01", "f80", "l80"}
 	idxs := []string{"0", "1", "4294967295"}
 	vals := []string{"0", "1", "2100000000000000", "-1", "5", "9007199254740992", "9007199254740993", "9223372036854775806", "9223372036854775807"}
-	scripts := []string{"-", "00", "0000", "01", "0001", "ff", "00ff"}
+	scripts := []string{"-", "00", "0000", "01", "0001", "ff", "00ff", "ff00", "ff01", "ffff", "ff0000"}
 	// all permutations of small key sets
 	maxk := 4
 	if tier == "thorough" {
@@ -371,6 +375,21 @@ func genC18(r *Rng, tier string, emit func(Case)) {
 				x, y = y, x
 			}
 			e("sort", "twobyte", x+","+y, "-")
+		}
+	}
+	// the empty transaction and transactions with one side empty (version and lock time must be carried)
+	e("sort", "empty", "-", "-")
+	e("sort", "empty", "01:0:0", "-")
+	e("sort", "empty", "-", "5:ff")
+	// equal amounts, every ordered pair and triple of the scripts that carry token data (category, amount,
+	// commitment): the order is decided by the script bytes alone, the token data travels with its output
+	tok := []string{"ff", "ff00", "ff01", "ffff", "ff0000", "00ff"}
+	for _, x := range tok {
+		for _, y := range tok {
+			e("sort", "tokens", "-", "5:"+x+",5:"+y)
+			for _, z := range tok[:3] {
+				e("sort", "tokens", "-", "5:"+x+",7:"+z+",5:"+y)
+			}
 		}
 	}
 	n := 150
@@ -557,6 +576,14 @@ func genC19(r *Rng, tier string, emit func(Case)) {
 			vs = append(vs, i64s(int64(r.U64()%2100000000000000)))
 		}
 		e("simple", "coin", strings.Join(vs, ","), itoa(r.Intn(k)), i64s(int64(r.Intn(1000))))
+	}
+	// values above 2^53 that differ in their low bits only (an order computed through float64 cannot tell them apart)
+	for _, sel := range sels {
+		for _, base := range []int64{1 << 53, 1 << 56, 1 << 60} { // sums of values and value-ages stay below 2^63
+			coins := i64s(base) + ":1," + i64s(base+1) + ":2," + i64s(base+2) + ":1," + i64s(base-1) + ":3"
+			e("sel", "bigvalues", sel, "2", "0", "0", i64s(base+2), coins)
+			e("sel", "bigvalues", sel, "1", "0", "0", i64s(base+1), coins)
+		}
 	}
 	// witnesses of the three repaired defects
 	e("sel", "fixed1", "minpriority", "1", "0", "500", "20", "10:1,10:100")
